@@ -807,6 +807,7 @@ void reb_integrator_trace_part2(struct reb_simulation* const r){
     
     // Create copy of all particle to allow for the step to be rejected.
     memcpy(ri_trace->particles_backup, r->particles, N*sizeof(struct reb_particle));
+    const struct reb_vec3d com_pos_backup = ri_trace->com_pos; // advanced by the COM step, needs to be reverted too
                         
     // This will be set to 1 if a collision occured.
     ri_trace->force_accept = 0;
@@ -824,6 +825,7 @@ void reb_integrator_trace_part2(struct reb_simulation* const r){
             // New encounters were found. Will reject the step.
             // Revert particles to the beginning of the step.
             memcpy(r->particles, ri_trace->particles_backup, N*sizeof(struct reb_particle));
+            ri_trace->com_pos = com_pos_backup;
 
             // Do step again
             reb_integrator_trace_step(r);
